@@ -6,9 +6,9 @@ OUT=${1:-/tmp/edzverif-regress.md}
 echo "| change | property | check exit | first signature |" > $OUT
 echo "|---|---|---|---|" >> $OUT
 run() { # patch id label
-  D=$(mktemp -d /tmp/edzmut-XXXXXX)
+  P=$(realpath "$1"); D=$(mktemp -d /tmp/edzmut-XXXXXX)
   cp -r /repo/edzed "$D/edzed"
-  if (cd "$D" && patch -p1 -s --fuzz=3 < "$1" >/dev/null 2>&1); then
+  if (cd "$D" && patch -p1 -s --fuzz=3 < "$P" >/dev/null 2>&1); then
     out=$(VERIF_REPO="$D" bin/check "$2" quick 2>&1); rc=$?
     sig=$(echo "$out" | grep -m1 "signature:" | sed 's/ *signature: //' | cut -c1-90)
   else rc="patch-failed"; sig=""; fi
